@@ -87,6 +87,30 @@ func init() {
 			"dump":    simrt.Dump(),
 		}, nil
 	}
+	// qwatch: a busy watcher of the admission limit. It reads the running count at every scheduling opportunity
+	// for `rounds` milliseconds of simulated time (`iters` reads per millisecond) and reports the largest value
+	// seen - an admission overshoot lasts only as long as the extra query runs, a poll every few milliseconds
+	// rarely meets it.
+	extra["qwatch"] = func(op *plan.Op) (interface{}, error) {
+		iters, rounds := 50, 40
+		if v, ok := op.Args["iters"].(float64); ok {
+			iters = int(v)
+		}
+		if v, ok := op.Args["rounds"].(float64); ok {
+			rounds = int(v)
+		}
+		maxActive, at := 0, int64(0)
+		for r := 0; r < rounds; r++ {
+			for i := 0; i < iters; i++ {
+				if a := query.GetActiveQueryCount(); a > maxActive {
+					maxActive, at = a, time.Now().UnixMilli()
+				}
+				simrt.Yield("qwatch")
+			}
+			simrt.Sleep(time.Millisecond)
+		}
+		return map[string]interface{}{"max_active": maxActive, "at_ms": at, "max": query.MAX_RUNNING_QUERIES}, nil
+	}
 	extra["stall"] = func(op *plan.Op) (interface{}, error) {
 		prefix, _ := op.Args["prefix"].(string)
 		n := simrt.Stall(prefix, time.Duration(op.DurMs)*time.Millisecond)
